@@ -6,9 +6,9 @@ props = [json.loads(l) for l in open(os.path.join(V, 'properties.jsonl'))]
 
 CLAIMS = {
  "C14": dict(
-   text="TLC checks the implementation-shaped state machine of date.rs (one action per loop iteration) against the property-level definitions for all lengths -5..70 x k 0..64 incl. termination; every recorded call of num_days/partition/range API of the real code (the model's whole (len,k) table at anchor dates + seeded random spans to 2000 days, reversed ranges under a watchdog) is validated by TLC against the property level",
+   text="TLC checks the implementation-shaped state machine of date.rs (one action per loop iteration) against the property-level definitions for all lengths -5..70 x k 0..64 incl. termination; every recorded call of num_days/partition/range API of the real code (the model's whole (len,k) table at anchor dates + seeded random spans to 2000 days, reversed ranges under a watchdog) is validated by TLC against the property level; Apalache discharges the exact-cover lemma of the partition loop for unbounded length and k; ranges across calendar seams (1582, year 0/1) and across the season without twilight (with a preceding range call on the same thread) are compared day by day with fresh-thread single-date calls",
    note="chrono date arithmetic trusted; range-vs-single-date equality computed by the harness with the library's own PartialEq",
-   tech="TLA+ spec (DateRange) + TLC model checking + TLC trace validation of recorded public calls", ref="§5 C14"),
+   tech="TLA+ spec (DateRange) + TLC model checking + Apalache inductive lemma + TLC trace validation of recorded public calls", ref="§5 C14"),
  "C17": dict(
    text="TLC checks that the search loops of hijri_date.rs, transcribed as a state machine, compute the 30-year-cycle tabular calendar for every day within 62 Hijri years of the epoch; the real converter is swept over ALL 3,652,059 dates and every month start / irregularity / panic (lossless compression, ~124k events) is validated by TLC against the cycle definition, the civil weekday and the civil date",
    note="chrono's Gregorian calendar is cross-checked per event against Calendar.tla; the 'plain successor' compression is done by the harness",
@@ -18,9 +18,9 @@ CLAIMS = {
    note="Rust float formatting and serde_json number printing are trusted to round-trip; for JSON routes the reference value is the number serde_json itself delivers for the literal",
    tech="TLA+ spec (Bounded/BoundedDefs) + TLC model checking + decision-table replay + TLC trace validation on IEEE bit patterns", ref="§5 C18"),
  "C15": dict(
-   text="TLC explores every interleaving of main thread, collector and workers of ParRange.tla (one action per hook point; days 0..6, parallelism 1..4, threshold 0..2) for safety (result = sequential map, no send to a gone receiver, no duplicate) and termination under weak fairness; the real prayer_times_dt_rng_block is run hooked (parallelism override 1..64, 0..6000 days, thresholds 0..400, 8 delay profiles at every send/recv/spawn/drop point) and every run's totally ordered event log is validated by TLC as a behaviour of the same spec, all invariants evaluated in every state, result compared with the sequential API",
+   text="TLC explores every interleaving of main thread, collector and workers of ParRange.tla (one action per hook point; days 0..6, parallelism 1..4, threshold 0..2) for safety (result = sequential map, no send to a gone receiver, no duplicate) and termination under weak fairness; the real prayer_times_dt_rng_block is run hooked (parallelism override 1..64, 0..6000 days, thresholds 0..400, 8 delay profiles at every send/recv/spawn/drop point) and every run's totally ordered event log is validated by TLC as a behaviour of the same spec, all invariants evaluated in every state, result compared with the sequential API; spec -> impl: every maximal behaviour of the model for tiny constants (2 883 schedules in quick) is replayed through the hook controller, which releases the threads at the hook points in exactly that order, and the real run must follow it",
    note="std mpsc/thread::scope semantics as modelled; the hooks' ordering lock makes send and drop(tx) atomic with their log entries; worker Sender drops are unlogged and composed into the recv-Err step; hangs are detected by a 25 s watchdog",
-   tech="TLA+ spec (ParRange) + TLC model checking incl. liveness + TLC trace validation of hooked concurrent executions", ref="§5 C15"),
+   tech="TLA+ spec (ParRange/ParRangeSched) + TLC model checking incl. liveness + schedule replay into the hooked code + TLC trace validation", ref="§5 C15"),
  "C05": dict(
    text="TLC checks on PrayerDay.tla (staged pipeline model, every policy x validity pattern) that a finished call has seven entries incl. Dhuhr and no flag without a policy; every recorded public call (|lat|<=60, named methods + custom angles, 4 roundings, weather) is validated by TLC: seven well-formed entries, the conventionally computed ones ordered around Dhuhr within 12 h, no flag under policy None",
    note="'conventionally computed' = reported unflagged and also reported by the same call under policy None; order measured as signed clock distance from Dhuhr",
@@ -34,25 +34,25 @@ CLAIMS = {
    note="quantified over the 8 named methods as the property states (interval consumers with angle-based methods only; half-of-night exempt from the flag clause); Imsaak is governed by C12",
    tech="TLA+ spec (PrayerDay) + TLC model checking + TLC trace validation of paired public calls", ref="§5 C08"),
  "C09": dict(
-   text="TLC checks GoodDay.tla (one action per probe) against the property-level choice 'closest good date, earlier on ties' for all validity patterns over offsets -6..6 and shows the pre-fix bound (D3) violates it; for recorded nearest-good-day calls (every day of whole years at |lat| 49..64 both hemispheres + random twilight-edge cases) TLC redoes the choice from the logged conventional results of the neighbouring dates and demands equality to the second and the extreme flags",
+   text="TLC checks GoodDay.tla (one action per probe) against the property-level choice 'closest good date, earlier on ties' for all validity patterns over offsets -6..6 and shows the pre-fix bound (D3) violates it; for recorded nearest-good-day calls (every day of whole years at |lat| 49..64 both hemispheres + random twilight-edge cases) TLC redoes the choice from the logged conventional results of the neighbouring dates and demands equality to the second and the extreme flags; Apalache discharges the inductive invariant of the probe loop for every validity pattern over +-40 days",
    note="|lat| <= 64; neighbours are logged out to the first good date on either side",
-   tech="TLA+ spec (GoodDay, PrayerDayTrace) + TLC model checking + TLC trace validation", ref="§5 C09"),
+   tech="TLA+ spec (GoodDay, PrayerDayTrace) + TLC model checking + Apalache inductive lemma + TLC trace validation", ref="§5 C09"),
  "C10": dict(
    text="the policy writers and the interval rewrite are specified in PrayerDayDefs.tla and model-checked (interval-defined Fajr/Isha keep their definition, replaced => flagged); for recorded calls under the 10 policies C10 names TLC recomputes the result from the logged raw conventional times at the site and at the substitute latitude in integer seconds and demands agreement within 3 s and exact flags",
    note="|lat| <= 60, natural zone, Shurooq < Dhuhr < Maghrib inside the civil day (property precondition)",
    tech="TLA+ spec (PrayerDayDefs) + TLC model checking + TLC trace validation", ref="§5 C10"),
  "C11": dict(
-   text="TLC checks Rounding.tla: the implementation-shaped conversion (negative-hour wrap loop, split, carry, final wrap) equals the property-level function for every second from -25 h to +50 h x 4 modes x 2 classes (thorough; stride 7 in quick) with 9 invariants; the real code is swept through the seconds of the day with fractional-minute offsets (every second in thorough) and each mode's output must equal RoundClock of the unrounded output",
+   text="TLC checks Rounding.tla: the implementation-shaped conversion (negative-hour wrap loop, split, carry, final wrap) equals the property-level function for every second from -25 h to +50 h x 4 modes x 2 classes (thorough; stride 7 in quick) with 9 invariants; the real code is swept through the seconds of the day with fractional-minute offsets (every second in thorough) and each mode's output must equal RoundClock of the unrounded output; Apalache discharges the same lemma for every integer number of seconds by induction over the wrap loop",
    note="exact comparison: both runs share the float path up to the rounding switch",
-   tech="TLA+ spec (Rounding) + TLC model checking + TLC trace validation of an every-second sweep", ref="§5 C11"),
+   tech="TLA+ spec (Rounding) + TLC model checking + Apalache inductive lemma + TLC trace validation of an every-second sweep", ref="§5 C11"),
  "C12": dict(
    text="TLC checks the frame conditions on PrayerDay.tla (an offset reaches only its prayer, Imsaak follows Fajr; interval definitions; extreme Fajr => extreme Imsaak an interval earlier; LegacyImsaak shows D7); recorded pairs of public calls differing in exactly one parameter (each offset key, each interval, +-1 degree angles, school, weather incl. absent-vs-default) and policy runs are validated by TLC",
    note="frame conditions under policy None; shifts to +-1 s; 'unchanged' exactly; the Imsaak offset key is held to 'no effect'",
    tech="TLA+ spec (PrayerDay) + TLC model checking + TLC trace validation of paired public calls", ref="§5 C12"),
  "C01": dict(
-   text="Sun.tla specifies an ephemeris independent of the library (Meeus low-precision theory in 32-bit fixed point; its envelope is model-checked by SunMC: unit vector, declination <= obliquity, daily motion, sidereal gain, mean noon within the equation of time); for every recorded public call TLC evaluates it at the reported Dhuhr (UT via the gmt offset) and demands |hour angle| <= 14 s and upper transit; Dhuhr must be reported at all latitudes incl. the poles",
+   text="Sun.tla specifies an ephemeris independent of the library (Meeus low-precision theory in 32-bit fixed point; its envelope is model-checked by SunMC: unit vector, declination <= obliquity, daily motion, sidereal gain, mean noon within the equation of time); for every recorded public call TLC evaluates it at the reported Dhuhr (UT via the gmt offset) and demands |hour angle| <= 14 s and upper transit; Dhuhr must be reported at all latitudes incl. the poles; design level: JulianDay.tla (the Julian-day formula is the civil day count plus a constant for every date 1583..2399) and RaInterp.tla (RA unwrapping across 360->0), each with a Legacy switch TLC must refute",
    note="tolerance = 10 s + 3 s oracle error + 1 s truncation; Delta-T ignored by both sides; quick samples dates (equinox week, month/year ends, leap days + random), thorough every 5th date 1600..2399",
-   tech="TLA+ environment spec (Sun/FixedPoint) + TLC evaluation on recorded public calls (trace validation)", ref="§5 C01"),
+   tech="TLA+ environment spec (Sun/FixedPoint) + TLC model checking of JulianDay/RaInterp/SunMC + TLC trace validation of recorded public calls", ref="§5 C01"),
  "C02": dict(
    text="TLC evaluates Sun.tla at the reported Shurooq and Maghrib instants of recorded calls (|lat|<=60, weather absent/corners/interior): geometric altitude -0.8333 within 0.065 degree, Shurooq before / Maghrib after the same day's Dhuhr by hour-angle sign; paired calls without/with weather: Shurooq/Maghrib move < 60 s, Dhuhr/Asr and angle-defined Fajr/Isha identical, interval-defined Isha moves with Maghrib",
    note="tolerance 0.05 + 0.015 degree (oracle); events attributed to the solar day of the reported Dhuhr",
